@@ -53,7 +53,34 @@ class P(framework.Prop):
             for op in OPS:
                 out.append("cmp %s %s %s" % (op, wire.val(a), wire.val(b)))
                 out.append("cmp %s %s %s" % (op, wire.val(b), wire.val(a)))
+        # the operators through compile + search, with one and the same stored value on both sides (a shared value is not a special case)
+        SYM = {"eq": "==", "ne": "!=", "lt": "<", "le": "<=", "gt": ">", "ge": ">="}
+        self.same = {}
+        vals = [None, True, False, 0, 1, -1, 1.5, -0.0, 2**53 + 1, 2**64 - 1, -2**63, "", "abc", "é", [], [1], [1, "a", None], {}, {"k": 1}, {"k": [1, {"z": None}]}, [[]], [None]]
+        for _ in range(20 if tier == "quick" else 2000):
+            vals.append(gen.rand_doc(rng, 2))
+        for v in vals:
+            isnum = isinstance(v, (int, float)) and not isinstance(v, bool)
+            for op, sym in SYM.items():
+                exp = {"eq": "OK t", "ne": "OK f"}.get(op, ("OK t" if op in ("le", "ge") else "OK f") if isnum else "OK n")
+                for e, d in [("a %s a" % sym, {"a": v}), ("@ %s @" % sym, v), ("a.b %s a.b" % sym, {"a": {"b": v}}), ("a[0] %s a[0]" % sym, {"a": [v]}),
+                             ("a %s b" % sym, {"a": v, "b": v}), ("[a, a][0] %s a" % sym, {"a": v}), ("(a) %s (a || a)" % sym, {"a": v})]:
+                    if e.startswith("(a)") and not v and v != 0:
+                        continue
+                    line = "search %s %s" % (wire.s(e), wire.val(d))
+                    if not (e.startswith("(a)") and v in (0, 0.0)):
+                        self.same[line] = exp
+                    out.append(line)
+            line = "search %s %s" % (wire.s("[?@ >= @] | length(@)"), wire.val([v, v, 1]))
+            out.append(line)
+            out.append("search %s %s" % (wire.s("[?@ == @] | length(@)"), wire.val([v, v, 1])))
         return out
+
+    def oracle(self, case, iobs):
+        exp = getattr(self, "same", {}).get(case)
+        if exp is not None and iobs != exp:
+            return "a value compared with itself: expected %s, observed %s" % (exp, iobs)
+        return None
 
     def nontrivial(self, case, mobs):
         return mobs in ("OK t", "OK f")
